@@ -89,6 +89,7 @@ type IVar struct {
 	bound  bool // substituted by `to`
 	to     Lin
 	def    func(r *renderer) string // defining SMT term for non-linear results
+	eval   func(m *Model) int64     // concrete evaluation of the definition
 	deps   []int                    // ivars the definition mentions
 	depsNF []NF
 	input  bool
@@ -1391,6 +1392,26 @@ func (p *Path) check(extra []*B, slice, exact, model, important bool) (Tri, map[
 	var want []string
 	if model {
 		want = names
+	}
+	if p.eng.cfg.guessTries > 0 {
+		if _, cached := queryCache.Load(sb.String()); !cached || model {
+			var gc []*B
+			for i, c := range cons {
+				if use[i] {
+					gc = append(gc, c.b)
+				}
+			}
+			for _, c := range ex {
+				gc = append(gc, c.b)
+			}
+			if gm := p.tryGuess(gc, aids, vids, sb.String()); gm != nil {
+				atomic.AddInt64(&p.eng.stats.guessed, 1)
+				if !model {
+					queryCache.Store(sb.String(), Sat)
+				}
+				return Sat, gm, "witness-guess"
+			}
+		}
 	}
 	p.nQueries++
 	atomic.AddInt64(&p.eng.stats.smtQueries, 1)
